@@ -37,6 +37,11 @@ mod util;
 mod validate;
 mod value;
 
+#[cfg(feature = "verif-hooks")]
+#[doc(hidden)]
+#[allow(missing_docs)]
+pub mod verif_hooks;
+
 #[allow(missing_docs)]
 #[derive(Error, Debug)]
 pub enum Error {
